@@ -247,6 +247,7 @@ func (x *Executor) execPhi(fr *Frame, phi *ssa.Phi, b *ssa.BasicBlock, ins []inc
 	// value per incoming edge
 	var terms []string
 	var conds []string
+	var taintVals []Val
 	ok := true
 	for _, in := range ins {
 		idx := -1
@@ -266,19 +267,26 @@ func (x *Executor) execPhi(fr *Frame, phi *ssa.Phi, b *ssa.BasicBlock, ins []inc
 		}
 		terms = append(terms, v.T)
 		conds = append(conds, in.cond)
+		taintVals = append(taintVals, v)
 	}
 	if !ok || len(terms) == 0 {
-		// loop-header phi or unsupported: havoc
+		// loop-header phi or unsupported: havoc (it may hold any protected pointer)
 		n := u.freshConst("phi", u.sortOf(phi.Type()))
 		u.assume(u.wfValue(n, phi.Type(), 0))
-		fr.vals[phi] = Val{T: n, Ty: phi.Type()}
+		pv := Val{T: n, Ty: phi.Type()}
+		if len(ins) > 0 {
+			for r := range ins[0].st.fresh {
+				pv.Taint = append(pv.Taint, r)
+			}
+		}
+		fr.vals[phi] = pv
 		return
 	}
 	t := terms[len(terms)-1]
 	for i := len(terms) - 2; i >= 0; i-- {
 		t = fmt.Sprintf("(ite %s %s %s)", conds[i], terms[i], t)
 	}
-	fr.vals[phi] = Val{T: u.define("phi", u.sortOf(phi.Type()), t), Ty: phi.Type()}
+	fr.vals[phi] = Val{T: u.define("phi", u.sortOf(phi.Type()), t), Ty: phi.Type(), Taint: unionTaint(taintVals...)}
 }
 
 // execLoop handles a natural loop: invariant on entry, havoc of the write set, invariant
@@ -375,6 +383,10 @@ func (x *Executor) execLoop(fr *Frame, li *loopInfo, ins []incoming) map[*ssa.Ba
 	// 3. havoc write set
 	stH := stE.clone()
 	stH.ghost = map[string]string{}
+	for r := range ws.unprot {
+		delete(stH.fresh, r)
+		x.escape(stH, Val{Taint: []string{r}})
+	}
 	var cs []string
 	for c := range ws.comps {
 		cs = append(cs, c)
@@ -389,6 +401,9 @@ func (x *Executor) execLoop(fr *Frame, li *loopInfo, ins []incoming) map[*ssa.Ba
 	sort.Strings(cs)
 	for _, c := range cs {
 		n := u.freshConst(c+"@L", u.heapSorts[c])
+		if ws.all {
+			x.protectComp(stE, stH, c, x.heapGet(stE, c), n)
+		}
 		stH.heap[c] = n
 		if c == allocComp {
 			old := x.heapGet(stE, allocComp)
@@ -417,7 +432,13 @@ func (x *Executor) execLoop(fr *Frame, li *loopInfo, ins []incoming) map[*ssa.Ba
 		ty := k.alloc.Type().(*types.Pointer).Elem()
 		n := u.freshConst("L$"+k.alloc.Comment, u.sortOf(ty))
 		u.assume(u.wfValue(n, ty, 0))
-		stH.locals[k] = Val{T: n, Ty: ty}
+		hv := Val{T: n, Ty: ty}
+		if isPointerLike(ty) || u.sortOf(ty) == "Slice" || u.sortOf(ty) == "Iface" || strings.HasPrefix(u.sortOf(ty), "|S$") {
+			for r := range stH.fresh {
+				hv.Taint = append(hv.Taint, r)
+			}
+		}
+		stH.locals[k] = hv
 	}
 	// heap well-formedness of havoced pointer locals is covered by wf on load.
 	// 4. assume invariants
@@ -790,6 +811,7 @@ func (x *Executor) storeStructObj(st *State, ref string, structT types.Type, val
 func (x *Executor) store(st *State, a *Addr, v Val, reach string) {
 	u := x.u
 	if a.Kind == "structobj" {
+		x.escape(st, v)
 		x.storeStructObj(st, a.Ref, a.Struct, v.T)
 		x.guardWrites(st, a, reach)
 		return
@@ -802,6 +824,9 @@ func (x *Executor) store(st *State, a *Addr, v Val, reach string) {
 	if v.Addr != nil {
 		u.unsupported("interior pointer stored to memory")
 		v = Val{T: u.freshConst("interior", "Int"), Ty: v.Ty}
+	}
+	if a.Kind != "local" {
+		x.escape(st, v)
 	}
 	root, _ := x.rootLoad(st, a)
 	nv := x.updatePath(root, a.Path, v.T)
@@ -834,6 +859,56 @@ func (x *Executor) guardWrites(st *State, a *Addr, reach string) {
 	if x.u.eng.guardHook != nil {
 		x.u.eng.guardHook(x, st, a, reach)
 	}
+}
+
+// protectComp: after a havoc of component c (old -> new version), objects that are still
+// protected (allocated here, never escaped) keep their contents.
+func (x *Executor) protectComp(stOld, stNew *State, c, oldT, newT string) {
+	u := x.u
+	var refs []string
+	for r := range stNew.fresh {
+		refs = append(refs, r)
+	}
+	sort.Strings(refs)
+	for _, r := range refs {
+		for _, loc := range x.compsOfObject(r, stNew.fresh[r]) {
+			if loc.comp == c {
+				u.assume(fmt.Sprintf("(= (select %s %s) (select %s %s))", newT, loc.ref, oldT, loc.ref))
+			}
+		}
+	}
+}
+
+type objLoc struct{ comp, ref string }
+
+// compsOfObject lists the heap components (and the reference used in each) that make up the
+// object of type t at ref.
+func (x *Executor) compsOfObject(ref string, t types.Type) []objLoc {
+	u := x.u
+	var out []objLoc
+	switch tt := t.Underlying().(type) {
+	case *types.Struct:
+		for i := 0; i < tt.NumFields(); i++ {
+			ft := tt.Field(i).Type()
+			if isFlattened(ft) {
+				out = append(out, x.compsOfObject(u.subRef(t, tt.Field(i).Name(), ref), ft)...)
+				continue
+			}
+			c, _ := u.fieldComp(t, tt.Field(i).Name())
+			out = append(out, objLoc{c, ref})
+		}
+		for _, g := range u.ghostFields(t) {
+			c, _ := u.fieldComp(t, g.name)
+			out = append(out, objLoc{c, ref})
+		}
+	case *types.Array:
+		c, _ := u.elemComp(tt.Elem())
+		out = append(out, objLoc{c, ref})
+	default:
+		c, _ := u.cellComp(t)
+		out = append(out, objLoc{c, ref})
+	}
+	return out
 }
 
 // pointerTo builds the address designated by a pointer value.
